@@ -78,20 +78,22 @@ Proof. exact p3_decode_encode_any_segmentation_client. Qed.
 Print Assumptions C29_v3_decode_encode_any_segmentation_client.
 
 (* ConventionalResponseHandler turns the parts of a response back into
-   status / args / body or chunks / stream error ... *)
-Theorem C29_v3_response_parts_guarded :
-  forall headers ok args body, rh_guard body = true ->
+   status / args / body or chunks / stream error, for every response shape,
+   including a body stream that fails before its first chunk (repaired in /repo
+   by 737004f; before that this case was C29_v3_stream_error_first_refuted) *)
+Theorem C29_v3_response_parts :
+  forall headers ok args body,
     rh_run rh_init (p3_events_of headers (response_parts ok args body)) = Some (rh_expected ok args body).
-Proof. exact response_parts_roundtrip_guarded. Qed.
-Print Assumptions C29_v3_response_parts_guarded.
+Proof. exact response_parts_roundtrip. Qed.
+Print Assumptions C29_v3_response_parts.
 
-(* ... except when the body stream fails before its first chunk: the full
-   statement is FALSE (candidate finding C29-v3-stream-error-before-first-chunk) *)
-Theorem C29_v3_stream_error_first_refuted :
-  exists headers args e,
-    rh_run rh_init (p3_events_of headers (response_parts true args (RStream [] (Some e)))) = None.
-Proof. exact response_stream_error_first_refuted. Qed.
-Print Assumptions C29_v3_stream_error_first_refuted.
+Theorem C29_v3_stream_error_before_first_chunk :
+  forall headers args e,
+    rh_run rh_init (p3_events_of headers (response_parts true args (RStream [] (Some e)))) =
+    Some {| rh_status := Some 83%N; rh_args := Some args; rh_parts := []; rh_body_started := true;
+            rh_stream_status := Some 69%N; rh_error_args := Some e |}.
+Proof. intros headers args e. exact (response_parts_roundtrip headers true args (RStream [] (Some e))). Qed.
+Print Assumptions C29_v3_stream_error_before_first_chunk.
 
 (* ---- v1/v2 argument tuples: \x01-joined, \n-terminated ---- *)
 Theorem C29_tuple_roundtrip_guarded :
